@@ -60,3 +60,226 @@ Proof.
   cbn [fst] in E. subst o.
   eapply (run_off c OFF); [|exact R]. intros f [].
 Qed.
+
+(* ------------------------------------------------------------------------------------------
+   Two-run theorem: with_contexts does not change the frames.
+   [ctx_off c] is c with with_ctx := false and every table unchanged.  Tick bookkeeping: the
+   contexts step consumes ticks (one per contexts_active_in_frame / fill_context call, plus
+   those of nested child extractions), so the k-th-invocation faults of a configuration would
+   hit different hook calls in the two runs; the theorem is stated for fault-free
+   configurations, where ticks (and the accumulated error lists, which differ: context-hook
+   errors are only reported by the with-contexts run) never influence control flow.  The two
+   runs may start at different ticks and use the same fuel. *)
+
+Definition ctx_off (c : cfg) : cfg :=
+  {| unwrap := unwrap c; elab := elab c; prehide := prehide c; attr := attr c; ctxs := ctxs c;
+     fill := fill c; fault := fault c; with_ctx := false; grd := grd c; uguard := uguard c |}.
+Definition fault_free (c : cfg) : Prop := forall t, fault c t = false.
+
+Lemma better_origin_off c q fb : better_origin (ctx_off c) q fb = better_origin c q fb.
+Proof. reflexivity. Qed.
+Lemma frame_origin_off c o f : frame_origin (ctx_off c) o f = frame_origin c o f.
+Proof. reflexivity. Qed.
+
+Lemma iter_steps_off c o l b : forall t, iter_steps (ctx_off c) o l b t = iter_steps c o l b t.
+Proof. induction l as [|x r IH]; intros t; simpl; [reflexivity|]. rewrite IH. reflexivity. Qed.
+
+Ltac break_match :=
+  repeat (rewrite ?iter_steps_off;
+          match goal with
+          | |- context[match ?x with _ => _ end] => destruct x eqn:?
+          end).
+
+Lemma flatten_off c : forall fuel cnt tu te errs t,
+  flatten fuel cnt (ctx_off c) tu te errs t = flatten fuel cnt c tu te errs t.
+Proof.
+  induction fuel as [|fuel IH]; [reflexivity|].
+  intros cnt tu te errs t. destruct tu as [|[[org cur] d] tu]; [reflexivity|].
+  destruct cur as [f|f o|o|]; cbn [flatten]; cbn [fault grd uguard unwrap ctx_off];
+    rewrite ?iter_steps_off; break_match; rewrite ?IH; reflexivity.
+Qed.
+
+Lemma iter_ff c (FF : fault_free c) o b : forall l t,
+  exists t', iter_steps c o l b t = (l, (if b then Some (EIter o) else None), t').
+Proof.
+  induction l as [|x r IH]; intros t; simpl; rewrite FF.
+  - eexists; reflexivity.
+  - destruct (IH (S t)) as [t' E]. rewrite E. eexists; reflexivity.
+Qed.
+
+Lemma flatten_indep c (FF : fault_free c) : forall fuel cnt tu te errs t errs' t' te1 e1 t1,
+  flatten fuel cnt c tu te errs t = FlOk te1 e1 t1 ->
+  exists e2 t2, flatten fuel cnt c tu te errs' t' = FlOk te1 e2 t2.
+Proof.
+  induction fuel as [|fuel IH]; [discriminate|].
+  intros cnt tu te errs t errs' t' te1 e1 t1 H.
+  destruct tu as [|[[org cur] d] tu].
+  - cbn in *. inversion H. eauto.
+  - destruct cur as [f|f o|o|]; cbn [flatten] in H |- *.
+    + eapply IH; exact H.
+    + eapply IH; exact H.
+    + rewrite FF in H |- *.
+      destruct (unwrap c o) as [|i|l|l b|] eqn:U;
+        destruct (uguard c <? S cnt); destruct (g_unwrap (grd c)); try discriminate;
+        try (eapply IH; exact H).
+      all: destruct (iter_ff c FF o b l (S t)) as [x Ex]; destruct (iter_ff c FF o b l (S t')) as [y Ey];
+        rewrite Ex in H; rewrite Ey; destruct b; destruct (g_iter (grd c)); try discriminate;
+        eapply IH; exact H.
+    + rewrite FF in H |- *.
+      destruct (uguard c <? S cnt); destruct (g_unwrap (grd c)); try discriminate;
+        eapply IH; exact H.
+Qed.
+
+Lemma flatten_sim c (FF : fault_free c) fuel cnt tu te errs t errs' t' te1 e1 t1 :
+  flatten fuel cnt c tu te errs t = FlOk te1 e1 t1 ->
+  exists e2 t2, flatten fuel cnt (ctx_off c) tu te errs' t' = FlOk te1 e2 t2.
+Proof. intros H. rewrite flatten_off. eapply flatten_indep; eauto. Qed.
+
+(* an outcome that aborts the contexts step is never [Ok] *)
+Definition not_ok (o : outcome) : Prop := match o with Ok _ => False | _ => True end.
+
+Lemma run_kids_bad runner kids : forall acc t ks b t',
+  run_kids runner kids acc t = (ks, Some b, t') -> not_ok b.
+Proof.
+  induction kids as [|k r IH]; simpl; intros acc t ks b t' H; [discriminate|].
+  destruct (runner k t) as [o t2] eqn:E. destruct o.
+  - eapply IH; eauto.
+  - inversion H; subst; exact I.
+  - inversion H; subst; exact I.
+Qed.
+
+Lemma fill_all_bad c runner l : forall acc errs t r1 r2 r3 b,
+  fill_all c runner l acc errs t = (r1, r2, r3, Some b) -> not_ok b.
+Proof.
+  induction l as [|cid r IH]; simpl; intros acc errs t r1 r2 r3 b H; [discriminate|].
+  destruct (fault c t).
+  { destruct (g_fill (grd c)); [eapply IH; eauto | inversion H; subst; exact I]. }
+  destruct (fill c cid) as [kids|].
+  - destruct (run_kids runner kids [] (S t)) as [[ks ob] t'] eqn:E.
+    destruct ob as [bad|]; [| eapply IH; eauto].
+    pose proof (run_kids_bad _ _ _ _ _ _ _ E) as Hb.
+    destruct bad; [destruct Hb | |].
+    + destruct (g_fill (grd c)); [eapply IH; eauto | inversion H; subst; exact I].
+    + inversion H; subst; exact I.
+  - destruct (g_fill (grd c)); [eapply IH; eauto | inversion H; subst; exact I].
+Qed.
+
+Lemma ctx_step_bad c runner f errs t r1 r2 r3 b :
+  ctx_step c runner f errs t = (r1, r2, r3, Some b) -> not_ok b.
+Proof.
+  unfold ctx_step. intros H.
+  destruct (negb (with_ctx c)); [discriminate|].
+  destruct (fault c t).
+  { destruct (g_ctx (grd c)); inversion H; subst; exact I. }
+  destruct (ctxs c f) as [l|].
+  - eapply fill_all_bad; eauto.
+  - destruct (g_ctx (grd c)); inversion H; subst; exact I.
+Qed.
+
+Lemma ctx_step_off' c runner f errs t : ctx_step (ctx_off c) runner f errs t = ([], errs, t, None).
+Proof. reflexivity. Qed.
+
+Lemma elab_sim c (FF : fault_free c) f errs t errs' t' r e h tn :
+  elab_step c f errs t = (r, e, h, tn, None) ->
+  exists e', elab_step (ctx_off c) f errs' t' = (r, e', h, S t', None).
+Proof.
+  unfold elab_step. cbn [fault grd elab prehide ctx_off]. rewrite !FF.
+  destruct (elab c f); destruct (g_elab (grd c)); intros H; inversion H; subst; eexists; reflexivity.
+Qed.
+
+Definition core (f : fout) : nat * bool * option nat := match f with FOut f h o _ => (f, h, o) end.
+Definition frames_of (s : stack) : list fout := match s with Stack frs _ _ => frs end.
+Definition leaf_of (s : stack) : leaf := match s with Stack _ lf _ => lf end.
+
+Lemma run_sim c (FF : fault_free c) : forall fuel first tu te errs out t errs' out' t' s tf,
+  run fuel first c tu te errs out t = (Ok s, tf) ->
+  map core out' = map core out ->
+  exists s' tf', run fuel first (ctx_off c) tu te errs' out' t' = (Ok s', tf')
+    /\ map core (frames_of s') = map core (frames_of s) /\ leaf_of s' = leaf_of s.
+Proof.
+  induction fuel as [|fuel IH]; [discriminate|].
+  intros first tu te errs out t errs' out' t' s tf H M.
+  cbn [run] in H |- *.
+  destruct (flatten (S fuel) 0 c tu (rev te) errs t) as [te1 e1 t1| |] eqn:EF; try discriminate.
+  destruct (flatten_sim c FF _ _ _ _ _ _ errs' t' _ _ _ EF) as [e2 [t2 EF2]]. rewrite EF2.
+  assert (LEAF : forall lf ea eb, exists s' tf',
+            (Ok (Stack (rev out') lf ea), t2) = (Ok s', tf')
+            /\ map core (frames_of s') = map core (frames_of (Stack (rev out) lf eb))
+            /\ leaf_of s' = leaf_of (Stack (rev out) lf eb)).
+  { intros. eexists _, _. split; [reflexivity|]. simpl. rewrite !map_rev, M. auto. }
+  destruct te1 as [|[q d] rest].
+  - inversion H; subst. apply LEAF.
+  - destruct q as [f|f org|o|].
+    + inversion H; subst. apply LEAF.
+    + rewrite ctx_step_off'.
+      match type of H with context[ctx_step c ?r f e1 t1] =>
+        destruct (ctx_step c r f e1 t1) as [[[cx e3] t3] [bad|]] eqn:EC end.
+      * apply ctx_step_bad in EC. inversion H; subst. destruct EC.
+      * destruct (elab_step c f e3 t3) as [[[[r e4] h] t4] [x|]] eqn:EE; [discriminate|].
+        destruct (elab_sim c FF f e3 t3 e2 t2 _ _ _ _ EE) as [e5 EE2]. rewrite EE2.
+        assert (M' : map core (FOut f h org [] :: out') = map core (FOut f h org cx :: out))
+          by (simpl; rewrite M; reflexivity).
+        destruct first.
+        { remember (rev (FOut f h org cx :: out)) as X eqn:EX in H. inversion H. subst s.
+          eexists _, _. split; [reflexivity|].
+          cbn [frames_of leaf_of]. rewrite EX, !map_rev, M'. auto. }
+        destruct r as [|l|[i| |]|]; try (eapply IH; [exact H | exact M']).
+        all: destruct (next_of rest) as [[| | |]|]; try (eapply IH; [exact H | exact M']).
+    + inversion H; subst. apply LEAF.
+    + inversion H; subst. apply LEAF.
+Qed.
+
+Lemma root_q_off c root : root_q (ctx_off c) root = root_q c root.
+Proof. reflexivity. Qed.
+
+Lemma ctx_off_mkcfg u e a cx fl faults wc g ug :
+  ctx_off (mkcfg u e a cx fl faults wc g ug) = mkcfg u e a cx fl faults false g ug.
+Proof. reflexivity. Qed.
+
+Lemma mkcfg_fault_free u e a cx fl wc g ug : fault_free (mkcfg u e a cx fl [] wc g ug).
+Proof. intros t. reflexivity. Qed.
+
+Lemma frames_independent_fuel c (FF : fault_free c) fuel root t t' s :
+  fst (run fuel false c (root_q c root) [] [] [] t) = Ok s ->
+  exists s', fst (run fuel false (ctx_off c) (root_q (ctx_off c) root) [] [] [] t') = Ok s'
+    /\ map core (frames_of s') = map core (frames_of s)
+    /\ leaf_of s' = leaf_of s
+    /\ no_cx (frames_of s').
+Proof.
+  intros H. destruct (run fuel false c (root_q c root) [] [] [] t) as [o tf] eqn:R.
+  cbn [fst] in H. subst o.
+  destruct (run_sim c FF fuel false _ _ _ _ _ [] [] t' s tf R eq_refl) as (s' & tf' & R' & A & B).
+  exists s'. rewrite root_q_off, R'. repeat split; auto.
+  destruct s' as [frs lf es]. cbn [frames_of].
+  eapply (run_off (ctx_off c) eq_refl); [|exact R']. intros f [].
+Qed.
+
+Lemma frames_independent_of_with_contexts c root s :
+  fault_free c -> extract c root = Ok s ->
+  exists s', extract (ctx_off c) root = Ok s'
+    /\ map core (frames_of s') = map core (frames_of s)
+    /\ leaf_of s' = leaf_of s
+    /\ no_cx (frames_of s').
+Proof.
+  intros FF E. rewrite extract_unfold in E. rewrite extract_unfold.
+  set (fu := default_fuel) in *. clearbody fu.
+  exact (frames_independent_fuel c FF fu root 0 0 s E).
+Qed.
+
+(* the hypotheses are met by a non-trivial input: contexts with a nested child extraction, a
+   contexts hook that raises (so the error lists of the two runs differ), an inserting
+   elaborate_frame hook *)
+Definition ex_cfg : cfg :=
+  mkcfg [(0, USeq [Some (IPy 0); Some (IObj 1)]); (1, UOne (IPy 1)); (2, UOne (IPy 3))]
+        [(0, (ESeq [RItem (IPy 2); RNext], false))] []
+        [(0, CtxOk [5; 6]); (1, CtxRaise); (2, CtxOk [7])] [(5, FillOk [IObj 2]); (6, FillRaise)]
+        [] true all_guards 100.
+
+Example ex_frames_independent :
+  fault_free ex_cfg
+  /\ extract ex_cfg (IObj 0)
+     = Ok (Stack [FOut 0 false None [COut 5 [Stack [FOut 3 true None []] LNone []]; COut 6 []];
+                  FOut 2 true None [COut 7 []]; FOut 1 true None []] LNone [EFill 6; ECtx 1])
+  /\ extract (ctx_off ex_cfg) (IObj 0)
+     = Ok (Stack [FOut 0 false None []; FOut 2 true None []; FOut 1 true None []] LNone []).
+Proof. split; [exact (mkcfg_fault_free _ _ _ _ _ _ _ _)|]. split; vm_compute; reflexivity. Qed.
